@@ -17,6 +17,15 @@ the partner kinds plane, sphere and second flex, plus the 18 sides for self-coll
 (one object per role with zero friction), condim {1,3,4,6}, margin {0, .004, .008} and gap {0, .0015} differ between
 all objects of a model.  Oracle: the parameter fields of MuJoCo's contacts of the same pair (solref, effective
 solreffriction, solimp, friction, dim, includemargin; class f32).
+
+Family "pinned" (pinned vertices on a body of a MOVING kinematic tree; the parity scenarios above only have free vertex
+bodies, where a vertex coincides with the inertial frame of its point-mass body): shape {1d4, 2d33, 3d222} x pin body
+{hinged arm, free-floating base, jointless mount welded to a hinged arm, jointless mount welded to a free base} x pin
+set {one vertex, two vertices, first grid face} x elasticity (1D: edge stiffness; 2D: elastic2d in {stretch, bend, both};
+3D: young), no collision, the same 2 states (the pin body's joints are perturbed too).  The forces on a pinned vertex act
+on the pin body away from its centre of mass, so they reach the pin tree's dofs with a lever arm.  Same oracle as the
+parity scenarios (flexvert_xpos, edges, qfrc_spring / qfrc_damper / qfrc_passive, qacc).  Damping and edge equality stay
+off in this family: they differ from MuJoCo on the unchanged library for such flexes (candidates/C40.md section 10).
 """
 
 import itertools
@@ -32,12 +41,16 @@ RULE = (
   "the model, put_model accepts it, vertices moved, and the feature under test is active in MuJoCo's result (spring/damper force "
   "non-zero, equality rows present, contacts present for a collision scenario); distinct = hash of spec; family params: "
   "enumerate partner kind x flex side x partner priority (the model holds the 6 partners of that priority), 2 states; non-trivial = "
-  "every (flex, partner) pair of the model has contacts in both engines and its parameters were compared"
+  "every (flex, partner) pair of the model has contacts in both engines and its parameters were compared; family pinned: enumerate "
+  "shape x pin body kind x pin set x elasticity kind, 2 states; non-trivial = MuJoCo accepts the model, spring force non-zero, and a "
+  "pinned vertex sits off the centre of mass of a pin body that belongs to a tree with dofs"
 )
 BOUNDS = {
   "quick": "shapes 1d3,1d4,2d22,2d33,3d222 x dof {full,2d,trilinear} x 5 features x 4 collision modes (compiler/put_model rejections counted); "
-  "params: 18 flex sides x 18 partner sides (priority x solref format x solmix) x {plane, sphere, flex} on a 2x2 cloth + 18 sides of a self-colliding rope",
-  "thorough": "adds 3d333 and a second value alphabet per scenario; params: also rope and 2x2x2 solid against plane/sphere, rope against rope, 3x3x3 solid self",
+  "params: 18 flex sides x 18 partner sides (priority x solref format x solmix) x {plane, sphere, flex} on a 2x2 cloth + 18 sides of a self-colliding rope; "
+  "pinned: shapes 1d4,2d33,3d222 x 4 pin-body kinds (hinge, free, mount welded to hinge / free) x pin sets {1 vertex, 2 vertices, first face} x "
+  "elasticity kinds (1D edge stiffness; 2D elastic2d stretch/bend/both; 3D young)",
+  "thorough": "adds 3d333 and a second value alphabet per scenario; params: also rope and 2x2x2 solid against plane/sphere, rope against rope, 3x3x3 solid self; pinned: also 1d3, 2d22, 3d333",
 }
 ASSUMPTIONS = [
   "Euler integrator only; MuJoCo C 3.13 mj_forward is the reference",
@@ -65,6 +78,11 @@ AMP = (0.02, 0.015, 0.025, 0.018)
 # contributes to the mix: priority x solref format x solmix; the remaining per-object parameters (solref / solimp /
 # friction values, condim, margin, gap) are a function of the side index and of the role (flex or partner), chosen so
 # that no two objects of a model carry the same values.
+# Family "pinned": the body that carries the pinned vertices
+MOUNTS = ("hinge", "free", "weld_hinge", "weld_free")
+PINSETS = ("one", "two", "face")
+ELASTIC2D = ("stretch", "bend", "both")
+
 PRIOS = (-1, 0, 1)
 SOLREF_FMT = ("std", "direct")
 SOLMIX = (1.0, 0.0, 2.5)
@@ -86,6 +104,14 @@ def scenarios(tier, seed):
   # full forward() including the sensor stage on states with flex contacts, in a child process (see _CHILD)
   for shape, dof, col in (("1d4", "full", "self"), ("1d4", "2d", "self"), ("2d33", "full", "sphere"), ("2d33", "full", "plane"), ("3d222", "trilinear", "sphere")):
     out.append(dict(fam="sensor_stage", shape=shape, dof=dof, feature="edgeeq", collision=col, variant=v))
+  # pinned vertices on a body of a moving kinematic tree
+  for shape in ["1d4", "2d33", "3d222"] if tier == "quick" else list(SHAPES):
+    dim = SHAPES[shape][1]
+    for mount, pins, el in itertools.product(MOUNTS, PINSETS, ELASTIC2D if dim == 2 else [None]):
+      if dim == 1 and pins == "face":
+        continue  # the first "face" of a rope is its first vertex
+      for vv in [v] if tier == "quick" else [v, (v + 1) % 4]:
+        out.append(dict(fam="pinned", shape=shape, dof="full", feature="elasticity", collision="none", mount=mount, pins=pins, elastic2d=el, variant=vv))
   # contact parameter mixing: the flex takes every side of SIDES in turn; a model holds the six partners (solref format
   # x solmix) of one partner priority (MuJoCo keeps at most 50 contacts per flex, so not all 18 partners at once)
   pshapes = {"plane": ["2d22"], "sphere": ["2d22"], "flexflex": ["2d22"], "self": ["1d4"]}
@@ -104,10 +130,12 @@ def build_xml(scn):
   v = scn["variant"]
   feat, col = scn["feature"], scn["collision"]
   inner = ""
+  # MuJoCo refuses the elastic2d attribute on anything but a dim 2 flex
+  e2d = f' elastic2d="{scn.get("elastic2d") or "both"}"' if dim == 2 else ""
   if feat == "elasticity":
-    inner += f'<elasticity young="{YOUNG[v]}" poisson="0.2" thickness="0.02" elastic2d="both"/>' if dim > 1 else f'<edge stiffness="{EDGEK[v]}"/>'
+    inner += f'<elasticity young="{YOUNG[v]}" poisson="0.2" thickness="0.02"{e2d}/>' if dim > 1 else f'<edge stiffness="{EDGEK[v]}"/>'
   elif feat == "damping":
-    inner += f'<elasticity young="{YOUNG[v]}" poisson="0.2" thickness="0.02" elastic2d="both" damping="0.01"/>' if dim > 1 else f'<edge stiffness="{EDGEK[v]}" damping="0.5"/>'
+    inner += f'<elasticity young="{YOUNG[v]}" poisson="0.2" thickness="0.02"{e2d} damping="0.01"/>' if dim > 1 else f'<edge stiffness="{EDGEK[v]}" damping="0.5"/>'
   elif feat == "edgespring":
     inner += f'<edge stiffness="{EDGEK[v]}" damping="0.5"/>'
   elif feat == "edgeeq":
@@ -126,11 +154,28 @@ def build_xml(scn):
     inner += '<contact selfcollide="none"/>'
     world = '<geom name="floor" type="plane" size="2 2 .1" pos="0 0 0.495"/>'
   d = "" if scn["dof"] == "full" else f' dof="{scn["dof"]}"'
+  if scn.get("mount"):
+    return f'<mujoco><option integrator="Euler"/><worldbody>{world}{pinned_body(scn, cnt, dim, inner)}</worldbody></mujoco>'
   return (
     f'<mujoco><option integrator="Euler"/><worldbody>{world}'
     f'<flexcomp name="f" type="grid" count="{cnt}" spacing="0.1 0.1 0.1" pos="0 0 0.5" radius="0.01" dim="{dim}" mass="1"{d}>{inner}</flexcomp>'
     "</worldbody></mujoco>"
   )
+
+
+def pinned_body(scn, cnt, dim, inner):
+  """Family "pinned": the flexcomp sits inside a tilted arm body (hinge or free joint) or inside a jointless, tilted mount
+  welded to that arm; the grid starts away from the origin and from the centre of mass of the pin body, so that every
+  pinned vertex has a lever arm."""
+  n = [int(x) for x in cnt.split()]
+  npin = {"one": 1, "two": 2, "face": n[1] * n[2]}[scn["pins"]]  # flexcomp grid: the last count runs fastest
+  pin = f'<pin id="{" ".join(str(i) for i in range(npin))}"/>'
+  fc = f'<flexcomp name="f" type="grid" count="{cnt}" spacing="0.1 0.1 0.1" pos="0.25 0.02 0.03" radius="0.01" dim="{dim}" mass="1">{inner}{pin}</flexcomp>'
+  mount = scn["mount"]
+  if mount.startswith("weld_"):
+    fc = f'<body name="mount" pos="0.02 0.03 0.01" euler="10 0 5"><geom type="sphere" size="0.01" mass="0.05" contype="0" conaffinity="0"/>{fc}</body>'
+  joint = '<freejoint/>' if mount.endswith("free") else '<joint type="hinge" axis="0 1 0.2"/>'
+  return f'<body name="arm" pos="0 0 0.5" euler="20 30 40">{joint}<geom type="box" size=".1 .05 .02" pos="0.05 0.02 0.01" mass="1" contype="0" conaffinity="0"/>{fc}</body>'
 
 
 def make_state(mjm, scn, which, amp=None, fold=None):
@@ -140,6 +185,10 @@ def make_state(mjm, scn, which, amp=None, fold=None):
   k = np.arange(mjm.nq)
   q = np.array(mjm.qpos0) + (AMP[v] if amp is None else amp) * np.sin(k * 1.7 + which)
   qv = 0.2 * np.cos(np.arange(mjm.nv) * 1.3 + which)
+  for j in range(mjm.njnt):
+    if mjm.jnt_type[j] == int(mujoco.mjtJoint.mjJNT_FREE):
+      a = mjm.jnt_qposadr[j] + 3
+      q[a : a + 4] /= np.linalg.norm(q[a : a + 4])
   if (which == 1 if fold is None else fold) and mjm.nflexvert >= 4:
     # fold: bring the last vertex (if it owns translational dofs) close to the first one
     d0 = mujoco.MjData(mjm)
@@ -650,6 +699,17 @@ def execute(scn):
   except IndexError as e:
     return dict(ok=True, nontrivial=False, outcome="put_model_IndexError", info=str(e)[:200], key=util.sha(scn))
   tag = f"dim{SHAPES[scn['shape']][1]}:{scn['dof']}:{scn['feature']}:{scn['collision']}"
+  lever = True
+  if scn.get("fam") == "pinned":
+    tag += f":pinned_{scn['mount']}" + (f":elastic2d_{scn['elastic2d']}" if scn["elastic2d"] else "")
+    # a free vertex body carries 3 slide joints; any other vertex body is a pin body.  The family is about pinned
+    # vertices that sit off the centre of mass of a pin body whose tree has dofs (body_weldid 0 = static)
+    r0 = mujoco.MjData(mjm)
+    mujoco.mj_forward(mjm, r0)
+    lever = any(
+      mjm.body_jntnum[b] != 3 and mjm.body_weldid[b] != 0 and np.linalg.norm(r0.flexvert_xpos[i] - r0.xipos[b]) > 1e-3
+      for i, b in enumerate(mjm.flex_vertbodyid)
+    )
   c = util.Cmp()
   refs = []
   for which in (0, 1):
@@ -683,6 +743,9 @@ def execute(scn):
     pre = f"state{w}:"
     c.true(pre + "no capacity overflow in the harness", int(ovf[w]) & 0xFF == 0, f"overflow={int(ovf[w])}", vkey="harness_capacity")
     c.close(pre + "flexvert_xpos", d.flexvert_xpos.numpy()[w], mjd.flexvert_xpos, "f32", vkey=f"flexvert_xpos:{tag}")
+    # family pinned: smooth._flex_edges only walks the dofs of the two vertex bodies themselves, not those of the tree above them,
+    # so edge velocity (and the edge Jacobian, where MuJoCo fills it) differ from MuJoCo for every flex that lives on a moving tree:
+    # compared like everywhere else and listed as a known finding under the family's own keys (candidates/C40.md section 10)
     if mjm.nflexedge:
       Lref, Vref = edge_reference(mjm, mjd)
       # MuJoCo leaves these arrays at zero when nothing in the model consumes them; then MJWarp may either do the
@@ -736,7 +799,7 @@ def execute(scn):
   if col != "none":
     need = need and active["contacts"]
   return c.result(
-    nontrivial=active["moved"] and need,
+    nontrivial=active["moved"] and need and lever,
     key=util.sha(scn),
     info=dict(nv=int(mjm.nv), nflexvert=int(mjm.nflexvert), ncon=[int(r.ncon) for r in refs], nefc=[int(r.nefc) for r in refs], active=active, checked=c.nchecked),
   )
